@@ -109,6 +109,12 @@ func install(b *simbmc.BMC, r Repo) {
 	b.Data.Repo.AddTS, b.Data.Repo.EraseTS = 1000, 900
 }
 
+// baseTimestamps are the repository's addition / erase timestamps before any
+// modification (each modification adds 5 s): small counters, present-day
+// clocks, values just below 2^31 (so that a modification crosses it), beyond
+// it, and near the top of the 32-bit range.
+var baseTimestamps = [][2]uint32{{1000, 900}, {0x66f00000, 0x66e00000}, {0x7ffffffd, 0x7ffffffc}, {0x7ffffffd, 900}, {0x80000010, 0x7ffffffe}, {0xfffffff0, 0xffffffe0}}
+
 // compare checks the returned map against one repository version.
 func compare(got bmc.SDRRepository, r Repo) error {
 	want := map[uint16]*ref.FSR{}
@@ -275,6 +281,11 @@ func runFault(f Fault) (msg string, nontrivial string) {
 		return "harness: " + err.Error(), ""
 	}
 	install(w.BMC, r)
+	ts := baseTimestamps[(f.RepoSeed+f.K)%len(baseTimestamps)]
+	w.BMC.Data.Repo.AddTS, w.BMC.Data.Repo.EraseTS = ts[0], ts[1]
+	if ts[0] >= 0x7ffffff0 && ts[0] < 0x80000000 {
+		ev.Label("timestamps-cross-2^31")
+	}
 	final := r
 	fired := false
 	fired2 := false
@@ -432,6 +443,6 @@ func TestFaults(t *testing.T) {
 }
 
 func TestCoverage(t *testing.T) {
-	ev.RequireLabels(t, 1, "faults-complete", "fault:cancel", "fault:add", "fault:delete", "fault:replace", "fault:append-keep", "fault:delete-keep", "fault:replace-keep", "fault:add-sametime", "fault:delete-sametime", "fault:replace-sametime", "double-fault",
+	ev.RequireLabels(t, 1, "faults-complete", "timestamps-cross-2^31", "fault:cancel", "fault:add", "fault:delete", "fault:replace", "fault:append-keep", "fault:delete-keep", "fault:replace-keep", "fault:add-sametime", "fault:delete-sametime", "fault:replace-sametime", "double-fault",
 		"idstring:enc0:empty=true", "idstring:enc3:empty=true", "idstring:enc1:empty=false", "idstring:enc2:empty=false")
 }
